@@ -63,11 +63,18 @@ func c15Batch(rng *rand.Rand, n int, flags []bool, where string, col, row int, r
 	byteRowsOf := func(rows int) int { return (rows + 7) / 8 }
 	switch where {
 	case "payload", "check":
-		msg := 0
-		br := byteRowsOf(n)
+		// the matrix travels in chunks of 512 rows, one message per chunk, column-major inside a chunk
+		msg := row / 512
+		rowsIn := n - 512*msg
+		if rowsIn > 512 {
+			rowsIn = 512
+		}
+		br := byteRowsOf(rowsIn)
 		if where == "check" {
-			msg = 1
+			msg = (n + 511) / 512
 			br = byteRowsOf(256)
+		} else {
+			row = row % 512
 		}
 		p.rIO.mu.Lock()
 		base := len(p.rIO.sentData)
@@ -245,6 +252,33 @@ func c15Main(args []string) error {
 					res.viol("accepted-altered-response", "n=%d: the sender accepts although bit %d of response label %d (seed,x,t0,t1) was altered (correlation ok: %v)", n, bit, ri, ok)
 				}
 				emit(res, kosEv{Ev: "run", N: n, Where: "response", Col: ri, Row: bit, DeltaCol: 1, Used: 1, Accepted: b2i(acc), CorrOK: b2i(ok)})
+			}
+		}
+	}
+	// batches beyond one block of the challenge stream (1024 rows): flips in late payload rows, in the last row, in
+	// the row where a block begins, in columns on both sides of the 64-bit word boundary
+	for _, n := range []int{1100, 2049} {
+		flags := choicePattern(rng, n, "rand")
+		for _, row := range []int{1023, 1024, 1025, n - 1, 1024 + rng.Intn(n-1024)} {
+			for _, col := range []int{0, 1, 63, 64, 127, rng.Intn(128), rng.Intn(128), rng.Intn(128)} {
+				if nviol >= 6 {
+					return nil
+				}
+				res := &Result{Case: idx, Class: "flip:payload:late-row", Nontrivial: true}
+				p, acc, ok, err := c15Batch(rng, n, flags, "payload", col, row, 0, 0)
+				if err != nil {
+					return err
+				}
+				dcol := int(p.delta.Bit(col))
+				switch {
+				case acc && !ok:
+					res.viol("accepted-inconsistent", "n=%d: flip of bit (column %d, row %d) of the payload matrix is accepted although the outputs no longer satisfy the correlation (Delta selects the column: %v)", n, col, row, dcol == 1)
+				case acc && dcol == 1:
+					res.viol("accepted-inconsistent", "n=%d: flip of bit (column %d, row %d) of the payload matrix, in a column Delta selects, is silently accepted", n, col, row)
+				case !acc && dcol == 0:
+					res.drift("n=%d: flip (column %d, row %d) aborts although Delta does not select the column", n, col, row)
+				}
+				emit(res, kosEv{Ev: "run", N: n, Where: "payload", Col: col, Row: row, DeltaCol: dcol, Used: 1, Accepted: b2i(acc), CorrOK: b2i(ok)})
 			}
 		}
 	}
